@@ -8,6 +8,6 @@ T=/tmp/kv/seedtest3_$P/verif
 if [ ! -d $T ]; then mkdir -p /tmp/kv/seedtest3_$P; git clone -q /verif $T; cp -r /verif/lean/.lake $T/lean/.lake 2>/dev/null; fi
 (cd $T && git fetch -q && git reset -q --hard origin/main)
 sed -i "s#path = \"[^\"]*\"#path = \"$WT/konst\"#" $T/harness/Cargo.toml
-git -C $WT checkout -q -- . && git -C $WT apply $O/patch.diff || { echo "patch failed"; exit 3; }
+git -C $WT checkout -q -- . && git -C $WT checkout -q --detach $(git -C /repo rev-parse HEAD) && git -C $WT apply $O/patch.diff || { echo "patch failed"; exit 3; }
 (cd $T && KV_REPO=$WT ./check $CID 2>&1 | grep -E "VIOLATION|KNOWN|BROKEN|evaluations|obligations" | cut -c1-400)
 git -C $WT checkout -q -- .
